@@ -270,6 +270,54 @@ class QintMulConst(L1):
 
 
 
+class QintMulBothConst(L1):
+    """QintImp.mul with BOTH operands all-literal (`Qint4(6) * Qint4(3)`, `Qint4(2) * 3`): ensures bv(res) = v1 * v2 modulo 2^W, W the sizing of
+    twice the wider width.  Shape: (T1, v1, T2, v2)."""
+    name = "QintImp.mul.both-const"
+
+    def fn(self):
+        return QintImp.mul
+
+    def shapes(self, tier):
+        out = []
+        vals = [0, 1, 2, 3, 4, 5, 6, 7, 8, 10, 12, 15]
+        for T1 in (Qint2, Qint4):
+            for T2 in (Qint2, Qint4):
+                for v1 in vals:
+                    for v2 in vals:
+                        if v1 < 2 ** T1.BIT_SIZE and v2 < 2 ** T2.BIT_SIZE:
+                            out.append((T1, v1, T2, v2))
+        return out
+
+    def shape_str(self, shape):
+        T1, v1, T2, v2 = shape
+        return f"{tname(T1)}({v1}),{tname(T2)}({v2})"
+
+    def instantiate(self, shape, vc):
+        T1, v1, T2, v2 = shape
+        return T1.mul, [T1.const(v1), T2.const(v2)], {}, dict(leaves={}, opnds=[])
+
+    def post(self, shape, ctx, value):
+        T1, v1, T2, v2 = shape
+        T = sizing(2 * max(T1.BIT_SIZE, T2.BIT_SIZE))
+        if not R(value):
+            return [Clause("R", False, "structural")]
+        W = T.BIT_SIZE
+        cl = [Clause("R", True, "structural"), Clause("type", value[0] is T, "structural")]
+        if len(value[1]) != W:
+            return cl
+        cl.append(Clause("value", bv(value[1]) == z3.BitVecVal((v1 * v2) % (2 ** W), W)))
+        return cl
+
+    def region_ns(self, shape, ctx):
+        return {}
+
+    def describe_inputs(self, shape, ctx, vals):
+        T1, v1, T2, v2 = shape
+        return {"left": v1, "left:type": tname(T1), "right": v2, "right:type": tname(T2)}
+
+
+
 class QintMod(L1):
     """QintImp.mod(tleft, tright).  Python: x % y.  The library implements x & (y - 1), which is x % y exactly when y is a power of two
     ("Modulo operator only works with 2^n values", docs/source/supported.rst).
@@ -689,6 +737,7 @@ def all_contracts():
     for op in ("eq", "neq", "gt", "lt", "lte", "gte"):
         cs.append(QintCmp(op))
     cs.append(QintMulConst())
+    cs.append(QintMulBothConst())
     cs.append(QintMod())
     for op in ("bitwise_not", "shift_left", "shift_right", "fill", "crop"):
         cs.append(QtypeUnary(op))
